@@ -16,7 +16,7 @@ func genC06(rt *rapid.T) *C06Spec {
 		vc.fmtCompat, vc.noPanic = true, true
 	}
 	s.X = vc.genVal(rt, 0, false)
-	fc := &fmtConfig{noStar: true, noZeroMinus: true}
+	fc := &fmtConfig{noStar: true, noZeroMinus: true, noHugeNumbers: true}
 	s.Dir = fc.genDirective(rt)
 	if string(s.Dir.Verb) == "%" {
 		s.Dir.Verb = B("v")
